@@ -83,6 +83,7 @@ func verify(argv []string) int {
 	overlayFile := fs.String("overlay", "", "JSON file {path: replacement-file} applied as a packages overlay (selftests)")
 	expectFail := fs.String("expect-fail", "", "selftest mode: comma separated obligation substrings expected to fail")
 	jobs := fs.Int("j", 6, "concurrent obligations")
+	smtDir := fs.String("smtdir", "", "directory for SMT files (default <verif>/out/smt/<property>)")
 	fs.Parse(argv)
 	start := time.Now()
 	seed := 0
@@ -253,6 +254,9 @@ func verify(argv []string) int {
 	}
 	// ---- discharge ----
 	outDir := filepath.Join(*verif, "out", "smt", *prop)
+	if *smtDir != "" {
+		outDir = *smtDir
+	}
 	os.RemoveAll(outDir)
 	results := make([]*vc.SolveResult, len(obls))
 	var wg sync.WaitGroup
@@ -292,6 +296,9 @@ func verify(argv []string) int {
 	backends := map[string]int{}
 	failed := map[string]bool{}
 	replayDir := filepath.Join(*verif, "out", "replay", *prop)
+	if *smtDir != "" {
+		replayDir = filepath.Join(*smtDir, "replay")
+	}
 	for i, o := range obls {
 		r := results[i]
 		rep := OblReport{Name: o.Name, Kind: o.Kind, Status: r.Status, Solver: r.Solver, Seconds: r.Seconds, Clause: o.Src, All: r.All}
